@@ -768,8 +768,112 @@ def cross_case(rng):
             for op in rng.sample(["define", "refs", "highlight"], rng.choice([2, 3])):
                 items.append("S:%s:%d:%d:%d" % (op, f, l, c))
             items.append("S:rename:%d:%d:%d:%s" % (f, l, c, hxs(rng.choice(["zz9", "renamed", "q_1"]))))
-    items += ["S:docsym:%d" % i for i in range(nfiles)]
+    # the outline only sometimes: a row is accepted as a known-finding instance when ANY of its classes is open (lib/vlib.py
+    # classify), and documentSymbol answers nearly always carry the open class outline_span - a case that also holds a
+    # range of the repaired class wrong_file would pass as known
+    if rng.random() < 0.3:
+        items += ["S:docsym:%d" % i for i in range(nfiles)]
     items += ["S:wssym:%s" % hxs(rng.choice(["", tb, tb + "."])), "S:diags"]
+    return " ".join(items)
+
+
+# ---- plain globals / global functions defined in ANOTHER file than the one asked in (seeded/C04-7: documentHighlight added
+# the DEFINITION's range unconditionally; a highlight carries no URI, so the other file's line / column came back as a range
+# of the asked document). The defining file and the using files have DIFFERENT layouts (head comments, indentation,
+# statements in front; using files often SHORTER than the definition's line number), so a Loc carried over from the other
+# file lies outside the asked document or does not designate the name there.
+G_VARS = ["g_count", "Config_1", "APP_NAME", "limit", "registry2", "on_ready"]
+G_FUNS = ["handler_1", "make_widget", "util_trim", "Init", "dispatch"]
+
+
+def gcross_case(rng):
+    eol = rng.choice(["\n", "\n", "\r\n", "\r"])
+    nfiles = rng.choice([2, 2, 2, 3])
+    rels = ["a.lua", "b.lua", "sub/c.lua"][:nfiles]
+    if rng.random() < 0.3:
+        rels = rels[::-1]                       # the using file sorts BEFORE the defining file
+    names = rng.sample(G_VARS, rng.choice([1, 2])) + rng.sample(G_FUNS, rng.choice([1, 2]))
+    rng.shuffle(names)
+    lines = [[] for _ in range(nfiles)]
+    dfile = 0
+    for f in range(nfiles):
+        for _ in range(rng.choice([2, 3, 5, 8, 12]) if f == dfile else rng.choice([0, 0, 1, 2, 4])):
+            h = rng.choice(X_HEADS)
+            lines[f].append([h % "globals" if "%s" in h else h])
+    for nm in names:                            # definitions: mostly in the defining file, far down and indented
+        f = dfile if rng.random() < 0.85 else rng.randrange(nfiles)
+        ind = rng.choice(["", "  ", "\t", "      ", "          "])
+        pre = rng.choice([[], [], ["local _ = ", rng.choice(['"中文"', "'x y'", "0"]), "; "]])
+        if nm in G_FUNS:
+            k = rng.random()
+            if k < 0.6:
+                lines[f].append([ind] + pre + ["function ", (nm, "id"), "(p, q) return p end"])
+            elif k < 0.8:
+                lines[f].append([ind] + pre + [(nm, "id"), " = function(p) return p end"])
+            else:
+                lines[f] += [["--- doc of " + nm], [ind] + pre + ["function ", (nm, "id"), "(p)"], [ind, "  return p"], [ind, "end"]]
+        else:
+            lines[f].append([ind] + pre + [(nm, "id"), " = ", rng.choice(["2", '"v"', "{}", "{ k = 1 }", "nil or 0"])])
+        if rng.random() < 0.3:
+            lines[f].append([rng.choice(X_HEADS[1:])])
+    for f in range(nfiles):                     # uses in every file (few in the defining file)
+        for _ in range(rng.choice([1, 2, 3]) if f != dfile else rng.choice([0, 1])):
+            nm = rng.choice(names)
+            ind = rng.choice(["", "", "  ", "\t"])
+            k = rng.random()
+            if nm in G_FUNS and k < 0.6:
+                lines[f].append([ind, rng.choice(["", "local r = ", "print("]), (nm, "id"), "(1, 2)"])
+                if lines[f][-1][1] == "print(":
+                    lines[f][-1].append(")")
+            elif k < 0.75:
+                nm2 = rng.choice(names)
+                lines[f].append([ind, "print(", (nm, "id"), ", ", (nm2, "id"), ")"])
+            elif k < 0.9:
+                lines[f].append([ind, "local v%d = " % rng.randrange(9), (nm, "id")])
+            else:
+                lines[f].append([ind, "if ", (nm, "id"), " then print(", (nm, "id"), ") end"])
+    files, marks = [], []
+    for f in range(nfiles):
+        out, pos, mk = [], 0, []
+        for ln in lines[f]:
+            for part in ln:
+                if isinstance(part, tuple):
+                    mk.append((pos, part[0]))
+                    part = part[0]
+                out.append(part)
+                pos += len(part.encode("utf8"))
+            out.append(eol)
+            pos += len(eol)
+        text = "".join(out)
+        if rng.random() < 0.25:
+            text = text[:len(text) - len(eol)]
+        files.append((rels[f], text))
+        marks.append(mk)
+    items = ["F:%s:%s" % (hxs(p), hxs(t)) for p, t in files]
+    order = list(range(nfiles))
+    rng.shuffle(order)
+    # position queries are answered for OPEN documents only: all files open, or all but the defining file (which the
+    # server then knows from the workspace scan only), or a single using file
+    k = rng.random()
+    opened = order if k < 0.6 else ([i for i in order if i != dfile] if k < 0.9 else [rng.choice([i for i in order if i != dfile])])
+    items += ["S:open:%d" % i for i in opened]
+    for f in sorted(opened):
+        mk = marks[f]
+        if len(mk) > 8:
+            mk = rng.sample(mk, 8)
+        posn = lsp_positions(files[f][1], [o for o, _ in mk])
+        for o, nm in sorted(mk):
+            l, c = posn[o]
+            c += rng.choice([0, 0, len(nm) // 2, len(nm) - 1, len(nm)])
+            items.append("S:highlight:%d:%d:%d" % (f, l, c))
+            for op in rng.sample(["define", "refs"], rng.choice([1, 2])):
+                items.append("S:%s:%d:%d:%d" % (op, f, l, c))
+            if rng.random() < 0.5:
+                items.append("S:rename:%d:%d:%d:%s" % (f, l, c, hxs(rng.choice(["zz9", "renamed", "q_1"]))))
+    # no documentSymbol steps here: their answers carry the open class outline_span, and a row is accepted as a
+    # known-finding instance when ANY of its classes is open (lib/vlib.py classify) - a range of the repaired class wrong_file
+    # in the same case would pass as known
+    items += ["S:wssym:%s" % hxs(rng.choice(["", names[0], names[0][:2]])), "S:diags"]
     return " ".join(items)
 
 
@@ -782,6 +886,9 @@ def gen_ranges(rng, tier):
             continue
         if rng.random() < 0.2:
             out.append(cross_case(rng))
+            continue
+        if rng.random() < 0.12:
+            out.append(gcross_case(rng))
             continue
         mode = "ok" if rng.random() < 0.8 else "wild"
         nfiles = rng.choice([1, 1, 1, 2, 3])
@@ -842,6 +949,8 @@ def main(tier, seed):
     rleg = Leg("c04.ranges", gen_ranges, oracle="c04.srvans", per_case_s=2.0, jobs=16,
                skip_model=lambda m: m.startswith("SKIP") or m == "BAD-CASE",
                nontrivial=lambda c: c.count(" S:") > 8, describe=describe_ranges)
+    # every offending range of an answer carries its own class: the row is known only if ALL of them are open
+    rleg.all_classes = True
     legs = [leg, nleg, eleg, rleg]
     can_run = r.can_run()
     extra = {}
